@@ -436,6 +436,19 @@ def bf2_cases(rng, n):
             for _ in range(rng.choice([1, 1, 2, 3])):
                 l2.insert(rng.randrange(len(l2) + 1), rng.choice(BF2_LINES) if rng.random() < 0.7 else word_line(rng))
             out.append((enf, "\n".join(l2)))
+        # the FIRST data line of a section decides the component kind: give it a continuation tag type (one that may only
+        # follow a base type: 0x85.., 0x36.., 0x71..), or drop it so that a continuation line comes first
+        firsts = [i + 1 for i, l in enumerate(ls[:-1]) if l.startswith(":") and l[5:7].upper() == "FE" and ls[i + 1].startswith(":")
+                  and len(ls[i + 1]) > 9]
+        for i in rng.sample(firsts, min(2, len(firsts))):
+            raw = bytearray(bytes.fromhex(ls[i][1:]))
+            l2 = list(ls)
+            if rng.random() < 0.6:
+                raw[2] = (raw[2] + rng.choice([1, 1, 2, 3])) & 0xFF
+                l2[i] = ":" + bytes(raw).hex().upper()
+            else:
+                del l2[i]
+            out.append((enf, "\n".join(l2)))
         # data line edits: tag type, length byte, index, address
         dl = [i for i, l in enumerate(ls) if l.startswith(":") and len(l) > 9]
         for _ in range(3):
